@@ -69,6 +69,7 @@ type Exchange struct {
 	BodyCloses         int    // client called Response.Body.Close this many times
 	ReqClosedBy        string // who closed the client's request pipe reader first
 	ServerCtxCancelled bool
+	AbortedByReqBody   bool // the exchange was aborted because reading the caller's request body failed
 }
 
 func (e *Exchange) IsDone() bool      { e.mu.Lock(); defer e.mu.Unlock(); return e.Done }
@@ -267,9 +268,42 @@ type call struct {
 	reqCloseOnce sync.Once
 	stopAfter    func() bool
 	dropTrailers bool
+	selfClosed   bool // the transport itself closed the client's request body
+	aborted      chan struct{}
+	abortOnce    sync.Once
+	abortErr     error
+}
+
+// reqBodyFailed: reading the request body the caller supplied failed under the
+// transport although neither the transport closed it nor the call was
+// cancelled (typically: the caller closed it while the transport was still
+// sending).  Like net/http (HTTP/2: stream reset; HTTP/1: connection closed)
+// the whole exchange is aborted: the handler's context is cancelled, Do fails
+// if the response headers have not arrived, and unless the end of the response
+// has already been received, reading the response body fails with that error
+// once the data received so far is consumed.
+func (c *call) reqBodyFailed(err error) {
+	c.mu.Lock()
+	self := c.selfClosed
+	c.mu.Unlock()
+	if self || c.clientCtx.Err() != nil {
+		return
+	}
+	c.abortOnce.Do(func() {
+		c.ex.mu.Lock()
+		c.ex.AbortedByReqBody = true
+		c.ex.mu.Unlock()
+		c.abortErr = err
+		c.serverCancel()
+		c.resp.finish(err)
+		close(c.aborted)
+	})
 }
 
 func (c *call) closeClientReqBody(who string) {
+	c.mu.Lock()
+	c.selfClosed = true
+	c.mu.Unlock()
 	c.reqCloseOnce.Do(func() {
 		c.ex.mu.Lock()
 		c.ex.ReqClosedBy = who
@@ -329,6 +363,7 @@ func (t *Transport) Do(req *http.Request) (*http.Response, error) {
 		serverCancel: serverCancel,
 		resp:         newSbuf(),
 		headReady:    make(chan struct{}),
+		aborted:      make(chan struct{}),
 		done:         make(chan struct{}),
 		liveHeader:   make(http.Header),
 	}
@@ -391,6 +426,13 @@ func (t *Transport) Do(req *http.Request) (*http.Response, error) {
 
 	select {
 	case <-c.headReady:
+	case <-c.aborted:
+		select {
+		case <-c.headReady: // the headers had arrived as well: they win, the body is broken
+		default:
+			t.gate("T.Do.aborted")
+			return nil, urlErr(c.abortErr)
+		}
 	case <-ctx.Done():
 		t.gate("T.Do.ctxdone")
 		return nil, urlErr(ctx.Err())
@@ -539,6 +581,18 @@ func (c *call) pump() {
 			c.ex.mu.Unlock()
 			c.reqBuf.write(buf[:n])
 		}
+		if err == io.EOF && c.t.Gate != nil {
+			// A goroutine blocked in Read observes the outcome when it runs
+			// again, which may be arbitrarily later than the close that woke
+			// it.  Under the scheduler that latency is a yield point: probe
+			// again afterwards; a body whose read side was closed in the
+			// meantime (io.Pipe then reports ErrClosedPipe, not EOF) is what a
+			// late-waking transport would have seen.
+			c.t.gate("T.pump.woke")
+			if _, err2 := c.req.Body.Read(buf[:0]); err2 != nil && err2 != io.EOF {
+				err = err2
+			}
+		}
 		if err != nil {
 			if err == io.EOF {
 				c.ex.mu.Lock()
@@ -547,6 +601,7 @@ func (c *call) pump() {
 				c.reqBuf.finish(io.EOF)
 			} else {
 				c.reqBuf.finish(fmt.Errorf("memhttp: request body: %w", err))
+				c.reqBodyFailed(err)
 			}
 			return
 		}
@@ -600,6 +655,7 @@ func (b *lazyReqBody) Read(p []byte) (int, error) {
 	if err != nil && err != io.EOF {
 		// The client's pipe was closed by the transport (cancel / handler
 		// done): the server sees a broken stream, never a clean EOF.
+		b.c.reqBodyFailed(err)
 		return n, fmt.Errorf("memhttp: request body: %w", err)
 	}
 	return n, err
